@@ -16,7 +16,7 @@ import codeexec as X
 from pyharness import Family, Lcx, main
 
 TRANSFORMS = [dict(), dict(perm_comp=True), dict(rev_vars=True), dict(rev_eqs=True), dict(perm_comp=True, rev_vars=True, rev_eqs=True),
-              dict(rename=1), dict(rename=2), dict(rename=3), dict(rename=1, rev_eqs=True, perm_comp=True)]
+              dict(rename=1), dict(rename=2), dict(rename=3), dict(rename=4), dict(rename=1, rev_eqs=True, perm_comp=True)]
 
 
 def tname(t):
@@ -219,7 +219,7 @@ def families(opts):
             d.update(graph=desc, transform=tname(t))
             ctx.violation(sig if sig.startswith('C15:') else 'graph:' + sig, d)
         for t in TRANSFORMS:
-            if len(set(place)) == 1 and (t.get('perm_comp') and len(t) == 1 or t.get('rename') in (2, 3)):
+            if len(set(place)) == 1 and (t.get('perm_comp') and len(t) == 1 or t.get('rename') in (2, 3, 4)):
                 continue  # no second component / no twins: the transformation is the identity
             L = D.Layout(kinds, reads, place, **t)
             res = r.job({'id': ci, 'doc': L.render(), 'code': not t, 'ast': False})
